@@ -21,6 +21,8 @@ OUT = os.path.join(VERIF, "out")
 
 PROOF_FAIL = [
     (r"postcondition not satisfied", "postcondition"),
+    (r"unable to prove post-?condition of closure", "closure_postcondition"),
+    (r"unable to prove pre-?condition of closure|Call to non-static function fails to satisfy `callee.requires", "closure_precondition"),
     (r"precondition not satisfied", "precondition"),
     (r"assertion failed", "assertion"),
     (r"invariant not satisfied", "invariant"),
@@ -160,10 +162,21 @@ def classify(exp, table, gen_text, diags):
         ob["clause"] = clause
         ob["site"] = site
         pre = next((o for o in po + so if (o.get("label") or "").startswith("failed precondition")), None)
+        # byte span (in the generated file) of the clause that failed, when Verus points at one
+        cs = next((x for s0 in spans for x in expand(s0) if re.match(r"failed (precondition|this postcondition)", x.get("label") or "")), None)
+        if cs is None and kind == "invariant" and prim:
+            cs = prim[0]
+        if cs is not None and os.path.basename(cs.get("file_name", "")).startswith("unit"):
+            ob["clause_span"] = (cs["byte_start"], cs["byte_end"])
         if clause:
             name = "%s:%s[%d]" % (clause["fn"], clause["kw"], clause["index"])
         elif pre is not None and pre.get("text"):
-            name = "env-requires[%s]" % re.sub(r"\s+", " ", pre["text"].replace("requires", "").strip())[:90]
+            txt = re.sub(r"\s+", " ", pre["text"].replace("requires", "").strip())
+            core = re.sub(r"\s*//.*$", "", txt).rstrip(", ")
+            tag = re.search(r"//\s*\[[A-Z0-9, ]+\]", txt)
+            if len(core) > 100:
+                core = core[:50] + " .. " + core[-46:]
+            name = "env-requires[%s%s]" % (core, (" " + tag.group(0)) if tag else "")
         else:
             tl = next((o for o in po + so if o.get("where") == "template"), None)
             vs = next((o for o in po + so if o.get("where") == "vstd"), None)
@@ -194,7 +207,7 @@ def fn_at(exp, site):
     return best["id"] if best else None
 
 
-def run_unit(unit, rlimit=None, seed=None, vac=True, quiet=False):
+def run_unit(unit, rlimit=None, seed=None, vac=True, quiet=False, known=()):
     tmpl = os.path.join(VERIF, "vx", "units", unit + ".rs")
     outdir = os.path.join(OUT, "vx", unit)
     os.makedirs(outdir, exist_ok=True)
@@ -220,6 +233,33 @@ def run_unit(unit, rlimit=None, seed=None, vac=True, quiet=False):
         extra += ["--smt-option", "smt.random_seed=%d" % (seed % 1000)]
     rc, diags, summary, stderr, wall = run_verus(path, extra)
     failed, undecided, warnings = classify(exp, table, text, diags)
+    # A listed known finding must not hide a different violation: Verus reports one failing clause per call site /
+    # function exit, so each known clause that failed is replaced by `true` (same byte length) and the unit is re-verified;
+    # whatever fails then is reported in addition.
+    rounds = 0
+    cur = text
+    while known and rounds < 6:
+        spans = [f["clause_span"] for f in failed if f["obligation"] in known and f.get("clause_span") and not f.get("suppressed")]
+        if not spans:
+            break
+        rounds += 1
+        b = bytearray(cur.encode())
+        for (a0, a1) in spans:
+            if a1 - a0 >= 4:
+                b[a0:a1] = b"true" + b" " * (a1 - a0 - 4)
+        for f in failed:
+            if f["obligation"] in known:
+                f["suppressed"] = True
+        cur = b.decode()
+        kpath = os.path.join(outdir, "unit_known%d.rs" % rounds)
+        open(kpath, "w").write(cur)
+        rc_k, diags_k, summary_k, stderr_k, wall_k = run_verus(kpath, extra)
+        f2, u2, _ = classify(exp, table, cur, diags_k)
+        have = set(f["obligation"] for f in failed)
+        failed += [f for f in f2 if f["obligation"] not in have]
+        undecided += u2
+        wall += wall_k
+    res["known_rounds"] = rounds
     res.update({
         "failed": failed, "undecided": undecided, "warnings": warnings,
         "fns": exp.fns, "external_fns": exp.external_fns, "skipped": exp.skipped, "rewrites": exp.rewrites, "clauses": exp.clauses,
@@ -251,9 +291,11 @@ def run_unit(unit, rlimit=None, seed=None, vac=True, quiet=False):
     res["assumed_notes"] = [ln.strip().lstrip("/ ").strip() for ln in text.split("\n") if "ASSUMED" in ln]
     if re.search(r"\b(assume|admit)\s*\(", re.sub(r"//[^\n]*", "", text)):
         undecided.append({"message": "assume()/admit() present in generated unit: refused"})
+    if rounds:
+        summary = summary_k
     if undecided:
         res["status"] = "undecided"
-    elif failed:
+    elif [f for f in failed if not f.get("suppressed")]:
         res["status"] = "violation"
     elif summary and summary.get("verification-results", {}).get("success") and res["verified"] > 0:
         res["status"] = "pass"
